@@ -5,6 +5,7 @@ package main
 // (firing position, failure flavour), plus sampled gas cuts.
 
 import (
+	"encoding/json"
 	"fmt"
 )
 
@@ -123,6 +124,9 @@ func treeCheck(prop string, o func(tier string) enumOpts) func(sc *Scenario, st 
 			st.Shape(hh, true)
 			for _, v := range t.For(prop) {
 				v.Sc = c
+				if fb, err := json.Marshal(c.Faults); err == nil {
+					v.Msg += " [under faults " + string(fb) + "]"
+				}
 				vs = append(vs, v)
 			}
 		}
